@@ -102,6 +102,9 @@ def execute(ctx, calls, order, case):
     conn = peer.proto
     ctx.count('evaluations')
     loss_reason = Failure(ConnectionLost('verif loss'))
+    # a second connection of the same process (session + system bus, say): what arrives THERE, even under the serial of
+    # a call made here, is none of this connection's business - and its loss neither
+    other = clientfix.Peer().ready() if (len(order) + len(calls)) % 4 == 0 else None
     # issue the calls
     for c in calls:
         kw = {}
@@ -193,6 +196,15 @@ def execute(ctx, calls, order, case):
                     decided.setdefault(c.idx, ('loss', None))
             continue
         if who == 'U':
+            if other is not None and calls:
+                tgt = calls[rserial[0] % len(calls)]
+                other.send(RM.build(RM.METHOD_RETURN if ev == 'R' else RM.ERROR, 900 + rserial[0],
+                                    dict({'reply_serial': tgt.serial}, **({} if ev == 'R' else {'error_name': 'org.verif.Other'})),
+                                    's', ['for another connection']))
+                ctx.count('replies_on_another_connection')
+                if rserial[0] % 3 == 0:
+                    other.lose(Failure(ConnectionLost('the other connection went away')))
+                    other = clientfix.Peer().ready()
             if lost:
                 continue
             rserial[0] += 1
@@ -427,6 +439,71 @@ def local_failures(ctx):
         ctx.report('wrong-completion', 'call completed %d times' % good_before.fired, {}, case)
 
 
+def synchronous_replies(ctx):
+    """An in-process peer (loop-back transport, embedded bus) answers while the call is still being written: the reply
+    arrives re-entrantly from inside transport.write().  The call completes once with that reply all the same, and no
+    bookkeeping or timer outlives it."""
+    case = {'kind': 'sync-reply'}
+    for variant in range(24):
+        peer = clientfix.Peer().ready()
+        conn = peer.proto
+        peer.take()
+        kind = ('return', 'error', 'none')[variant % 3]
+        timeout = (None, 5.0)[(variant // 3) % 2]
+        little = bool((variant // 6) % 2)
+        seen = {'n': 0}
+
+        def on_event(k_, payload, kind=kind, little=little, peer=peer, seen=seen):
+            if k_ != 'write' or seen['n']:
+                return
+            try:
+                m = RM.parse(payload, strict=False)
+            except Exception:
+                return
+            if m.fields.get('member') != 'Sync':
+                return
+            seen['n'] += 1
+            if kind == 'return':
+                peer.ep.feed(RM.build(RM.METHOD_RETURN, 600, {'reply_serial': m.serial}, 's', ['at once'], little))
+            elif kind == 'error':
+                peer.ep.feed(RM.build(RM.ERROR, 600, {'reply_serial': m.serial, 'error_name': 'org.verif.AtOnce'}, 's',
+                                      ['no'], little))
+        peer.ep.t.on_event = on_event
+        kw = {'timeout': timeout} if timeout else {}
+        ctx.count('evaluations')
+        ctx.count('synchronous_reply_cases')
+        w = {'reply': kind, 'timeout': timeout, 'little': little}
+        try:
+            out = clientfix.Outcome(conn.callRemote('/obj', 'Sync', interface='org.verif.I', destination='org.verif.Peer',
+                                                    **kw))
+        except Exception as e:
+            ctx.report('sync-reply', 'callRemote raised %r when the reply arrived during the write' % e, w, case)
+            return
+        peer.ep.t.on_event = None
+        if kind == 'none':
+            peer.send(RM.build(RM.METHOD_RETURN, 601, {'reply_serial': peer.take()[-1].serial}, 's', ['later']))
+        want = {'return': [('ok', 'at once')], 'none': [('ok', 'later')]}.get(kind)
+        res = [(k, v if k == 'ok' else getattr(v.value, 'errName', repr(v.value))) for k, v in out.results]
+        if (want is not None and res != want) or (kind == 'error' and res != [('err', 'org.verif.AtOnce')]):
+            w['results'] = res
+            ctx.report('sync-reply', 'a reply delivered while the call was being written: call completed with %r' % (res,),
+                       w, case)
+            return
+        try:
+            CLOCK.advance(100)
+        except Exception as e:
+            ctx.report('timer-callback-raised', 'a timer raised %r after a synchronously answered call' % e, w, case)
+            return
+        live = [dc for dc in CLOCK.getDelayedCalls() if dc.active()]
+        if out.fired != 1 or live or conn._pendingCalls:
+            w['fired'] = out.fired
+            ctx.report('sync-reply', 'after a synchronously answered call: fired %d times, %d timers, %d pending entries' % (
+                out.fired, len(live), len(conn._pendingCalls)), w, case)
+            for dc in live:
+                dc.cancel()
+            return
+
+
 def build_calls(rng, n, scripts=None, deadline_all=None):
     calls = []
     for i in range(n):
@@ -529,6 +606,7 @@ def run(ctx):
     if si == 0:
         long_history(ctx)
         local_failures(ctx)
+        synchronous_replies(ctx)
     ctx.sample({'calls': [c.describe() for c in build_calls(random.Random(1), 2, [('R', 'D'), ('T', 'L')])],
                 'order': [[0, 'R'], [1, 'T'], ['U', 'E'], [0, 'D'], [1, 'L'], ['X', 'X']]})
     for k in ('first_return', 'first_error', 'first_timeout', 'first_loss'):
